@@ -122,6 +122,37 @@ theorem C10_roundtrip_main (fs : List Frame) (hfs : ∀ f ∈ fs, f.id.length = 
   simp only [holdsRt, w1, p1, p2, p3, beq_self_eq_true, Bool.true_and, Bool.and_true, decide_eq_true_eq]
   exact Nat.le_trans p4 (Nat.le_add_right _ _)
 
+theorem decodeTargetReady_none (l : Bytes) (h : l.contains bar = false) : decodeTargetReady l = none := by
+  induction l with
+  | nil => rfl
+  | cons b t ih =>
+    simp only [List.contains_cons, Bool.or_eq_false_iff] at h
+    have hb : (b == bar) = false := by
+      cases hbb : (b == bar) with
+      | false => rfl
+      | true =>
+        have e : b = bar := by simpa using hbb
+        subst e
+        simp at h
+    simp [decodeTargetReady, ih h.2, hb]
+
+/-- **TargetReady payload round trip**: the listener finds the bridge by the FULL tunnel id carried in the
+payload (this is what keeps the 16-byte truncation of the frame header off the production path): for
+EVERY tunnel id — client-chosen, '|' included — and every node id without '|', decoding the encoded
+message returns both unchanged. -/
+theorem C10_target_ready_roundtrip (tid node : Bytes) (h : node.contains bar = false) :
+    decodeTargetReady (encodeTargetReady tid node) = some (tid, node) := by
+  induction tid with
+  | nil => simp [encodeTargetReady, decodeTargetReady, decodeTargetReady_none node h, bar]
+  | cons b t ih =>
+    simp only [encodeTargetReady, List.cons_append] at ih ⊢
+    simp [decodeTargetReady, ih]
+
+/-- …and the hypothesis is needed: a node id containing '|' is cut at its last '|'. -/
+theorem C10_target_ready_witness :
+    decodeTargetReady (encodeTargetReady [0x61] [0x6e, bar, 0x31]) = some ([0x61, bar, 0x6e], [0x31]) := by
+  decide
+
 /-! ### Streams -/
 
 /-- **Write segmentation**: `FrameStream.Write(p)` on an open stream, for every `p` (empty, one frame,
